@@ -26,7 +26,7 @@ Print Assumptions C02_cursor_coherent.
    block and the same context (for predicates/state blocks up to c.text/c.pos when the
    stale-context quirk is on and the blocks ignore them) *)
 Theorem C02_trace_is_ref_trace : forall c,
-  has_state (cT c) = true -> o_memoize (cO c) = false -> G_wf c -> stale_ok c -> t_leftrec (cT c) = false ->
+  state_ok c -> o_memoize (cO c) = false -> G_wf c -> stale_ok c -> t_leftrec (cT c) = false ->
   forall fuel,
   match parse c fuel, rparse c fuel with
   | Returned _ _ s, RReturned _ _ m | Panicked _ s, RPanicked _ m =>
